@@ -67,6 +67,10 @@ func genC15(tier string, seed uint64, emit func(string)) {
 		}
 		emit(lifeLine(cfg, []string{"start", "portoff:p", "portoff:t", "stop", "obs", "porton:p", "porton:t", "restart", "ping:p", "obs", "stop", "obs"}))
 	}
+	// a request that makes the application's handler panic ends its own connection only: the others are served, new
+	// clients are served, Stop and Restart return
+	emit(lifeLine("plain tls", []string{"start", "open:p:a", "open:p:b", "open:t:c", "crash:a", "obs", "cmd:b", "cmd:c", "ping:p", "ping:t", "alive:b", "stop", "obs", "alive:b", "alive:c"}))
+	emit(lifeLine("plain", []string{"start", "open:p:a", "open:p:b", "crash:a", "cmd:b", "restart", "obs", "alive:b", "ping:p", "open:p:d", "crash:d", "ping:p", "stop", "obs"}))
 	// Stop and Restart with a client that has stopped reading its replies (the server's write to it is blocked): the call
 	// returns, the client is disconnected, nothing stays behind
 	emit(lifeLine("plain tls", []string{"start", "open:p:a", "open:t:b", "open:p:c", "flood:a", "flood:b", "obs", "stop", "obs", "drain:a", "drain:b", "alive:c", "start", "ping:p", "ping:t", "stop", "obs"}))
@@ -232,7 +236,7 @@ func oracleC15(cfg []string, results []string) string {
 // C19
 // ---------------------------------------------------------------------------------------------------
 
-var endings = []string{"cclose", "rst", "quit", "bad", "half", "unread", "halfcr", "halfbulk"}
+var endings = []string{"cclose", "rst", "quit", "bad", "half", "unread", "halfcr", "halfbulk", "crash"}
 var tlsFaults = []string{"plaintext", "garbage", "abort", "none", "selfsigned", "foreign", "expired"}
 
 func genC19(tier string, seed uint64, emit func(string)) {
@@ -268,6 +272,8 @@ func genC19(tier string, seed uint64, emit func(string)) {
 		_ = st
 	}
 	emit(lifeLine("plain tls", []string{"start", "open:p:a", "open:t:b", "open:p:c", "stallreq:a", "stallreq:b", "stallreq:c", "obs", "stop", "obs", "alive:a", "alive:b", "alive:c"}))
+	// a handler panic as the ending of a connection, with other connections open: exactly that connection is released
+	emit(lifeLine("plain tls", []string{"start", "open:p:a", "open:t:b", "open:p:c", "cmd:a", "crash:a", "obs", "cmd:b", "cmd:c", "crash:b", "obs", "ping:p", "ping:t", "stop", "obs", "alive:c"}))
 	// clients that stop reading: the server's write to them is blocked when the connection ends - by Stop, by Restart, or by
 	// the client going away
 	emit(lifeLine("plain tls", []string{"start", "open:p:a", "open:t:b", "flood:a", "flood:b", "obs", "stop", "obs", "drain:a", "drain:b"}))
@@ -346,7 +352,7 @@ func oracleC19(cfg []string, results []string) string {
 			if f[1] == "stall" && v == "pending" {
 				open[f[len(f)-1]] = true
 			}
-		case "cclose", "rst", "quit", "bad", "half", "unread", "halfcr", "halfbulk":
+		case "cclose", "rst", "quit", "bad", "half", "unread", "halfcr", "halfbulk", "crash":
 			delete(open, f[1])
 		case "obs":
 			want := fmt.Sprintf("conns=%d,", len(open))
